@@ -226,6 +226,23 @@ static void suite_c09(void)
         if (g_lite && len > 80 && len % 37 > 3) continue;
         for (int prior = 0; prior < 5; prior++) for (int placement = 0; placement < 2; placement++) c09_case(len, prior, placement);
     }
+    /* the getters around Avtp_Vss_Pad inside one optimised caller: what they return afterwards is what the header now says */
+    if (my_unit()) {
+        int fmt = fmt_index("Vss");
+        for (int len = 12; len <= 2044; len += (g_lite ? 37 : 1)) for (int prior = 0; prior < 2; prior++) {
+            uint8_t buf[2048 + 16], out[8]; memset(buf, prior ? 0xFF : 0x00, sizeof buf);
+            uint64_t l0 = rget(buf, fld(fmt, "acf_msg_length")), p0 = rget(buf, fld(fmt, "pad"));
+            int pad = (4 - len % 4) % 4;
+            SETCS("C09", 3, len, prior, 0, 0, 0, 0);
+            g_cnt.cases++; g_cnt.nontrivial++;
+            int faulted = 0;
+            TRY_CALL(w_vss_pad_getters(buf, (uint64_t)len, out), { faulted = 1; });
+            g_cnt.transitions++;
+            uint64_t g0 = ((uint64_t)out[0] << 8) | out[1], q0 = ((uint64_t)out[2] << 8) | out[3], g1 = ((uint64_t)out[4] << 8) | out[5], q1 = ((uint64_t)out[6] << 8) | out[7];
+            if (faulted || g0 != l0 || q0 != p0 || g1 != (uint64_t)((len + pad) / 4) || q1 != (uint64_t)pad)
+                violation("C09", "getters around Avtp_Vss_Pad in one caller", cs, "vss_length=%d: before %llu/%llu (header says %llu/%llu), after %llu/%llu (header says %d/%d)", len, (unsigned long long)g0, (unsigned long long)q0, (unsigned long long)l0, (unsigned long long)p0, (unsigned long long)g1, (unsigned long long)q1, (len + pad) / 4, pad);
+        }
+    }
     /* the dedicated length accessors carry every 9-bit value */
     if (my_unit()) {
         int fmt = fmt_index("Vss"); const RowField* L = fld(fmt, "acf_msg_length");
@@ -313,6 +330,13 @@ static void c13_value(int h, uint64_t x)
         TRY_CALL(r3 = w_bo3((uint64_t)h, x, t3), { r3 = ~r; });
         g_cnt.transitions++;
         if (r3 != r || memcmp(t3, img, (size_t)n)) { snprintf(key, sizeof key, "%s without predefined byte-order macros", BO_NAME[h]); violation("C13", key, cs, "x=0x%llx: compiled without __BYTE_ORDER__ gives 0x%llx, with it 0x%llx", (unsigned long long)x, (unsigned long long)r3, (unsigned long long)r); }
+    }
+    /* the same helpers as compiled by a Microsoft-flavoured compiler (branches behind _MSC_VER) */
+    if (w_bo5) {
+        uint8_t t5[8] = {0}; volatile uint64_t r5 = 0;
+        TRY_CALL(r5 = w_bo5((uint64_t)h, x, t5), { r5 = ~r; });
+        g_cnt.transitions++;
+        if (r5 != r || memcmp(t5, img, (size_t)n)) { snprintf(key, sizeof key, "%s with _MSC_VER defined", BO_NAME[h]); violation("C13", key, cs, "x=0x%llx: 0x%llx, otherwise 0x%llx", (unsigned long long)x, (unsigned long long)r5, (unsigned long long)r); }
     }
     /* the same helpers in a translation unit that included the system's own byte-order headers first */
     if (w_bo4) {
